@@ -337,7 +337,7 @@ pub fn gen_s5(rng: &mut Rng) -> Scenario {
 
 /// Every topology edit that is valid on the model state and involves dart `x` (as the dart
 /// itself or as the second argument).
-fn edits_involving(s: &crate::state::State, x: u32, in_use: &[u32]) -> Vec<crate::ops::Op> {
+pub fn edits_involving(s: &crate::state::State, x: u32, in_use: &[u32]) -> Vec<crate::ops::Op> {
     use crate::ops::Op;
     let mut out = vec![];
     for i in 1..=s.dim {
